@@ -8,6 +8,14 @@ CLAIMED = {
      text='For every translated formula stage (r1 diagnostics, grad B, O(r^2) incl. the assembled linear system, Mercier, grad grad B (both derivations), r_singularity coefficients, O(r^3), shear, field-vector and tensor converters) a Coq theorem states that for every grid size, differentiation matrix, input environment and positive scale factors the outputs computed from the scaled inputs are the outputs scaled by the power given by their dimension; oracle solves enter through their residual equations, which are proved scale-covariant. The model is regenerated from /repo on every run.',
      note='Not proved: uniqueness/convergence of Newton and of the dense solve (their equations are proved covariant), absolute thresholds in r_singularity and fourier_minimum (modelled), float rounding; init_axis Fourier sums and control code are covered by other checks. Trusted: Coq kernel+vm_compute, 3 Reals axioms, translator (validated each run), tables/dims.json.',
      ref='DESIGN.md section 6 C08'),
+ 'C07': dict(level='proof', technique='reflective sign-parity checker proved sound in Coq (Equiv.infer_sound, Sign.sign_check_sound) for the three generators, run by vm_compute on the regenerated model; translator validation + prediction correspondence',
+     text='For each generator (field reversal, mirror, toroidal reversal with profile reversal) and each translated formula stage, a Coq theorem states that for every grid size, every differentiation matrix compatible with the grid action and every input environment, the outputs computed from the transformed inputs are the original outputs times the fixed sign of tables/signs.json (profiles reversed under T); residual equations of the Newton and linear solves are proved covariant.',
+     note='Not covered by the theorems: second row of the O(r^2) system under mirror (needs a cancellation the syntactic checker cannot see), untwisted quantities under T, Cartesian converters, thresholded root selection of r_singularity, helicity counting (control code), iota2 under F (see C19). The harness checks all of these numerically plus the lasym / definite-parity clause.',
+     ref='DESIGN.md section 6 C07'),
+ 'C05': dict(level='proof', technique='reflective shift-equivariance checker proved sound in Coq (Shift.shift_check_sound), run by vm_compute on the regenerated model; translator validation + prediction correspondence',
+     text='For every translated stage a Coq theorem states that, for every grid size and every circulant differentiation matrix, cyclically shifting all inputs shifts every covered output (tables/shift_cover.json) and preserves the residual equations of the sigma and O(r^2) solves; any use of a fixed grid index in a covered formula breaks the obligation.',
+     note='Excluded because origin-dependent by definition: untwisted coefficients on helical axes, varphi (its induced law is checked numerically), Cartesian components. iota2 is excluded (C19 finding). Not proved: Newton reaches the shifted fixed point; init_axis Fourier sums under coefficient rotation are checked numerically by the harness.',
+     ref='DESIGN.md section 6 C05'),
 }
 checks, na = [], []
 for p in props:
